@@ -102,6 +102,14 @@ pub fn run(out: &mut Out, thorough: bool) {
             out.check(&format!("spok/{}-U={:?}/revealed-changed-after-acceptance", k, u), "proof_verify", vec!["last revealed attribute + 1".into()], false, &[], || p.proof_verify(&cpa, pa, &bl, &r2, u, nn));
         }
         out.check(&format!("spok/{}-U={:?}/other-signer-key-after-acceptance", k, u), "proof_verify", vec![], false, &[], || p.proof_verify(&cpa, pb, &bl, &rev, u, nn));
+        // signer keys that share the modulus and differ in b or c (single-field edits of pk), right after the acceptance
+        for (fname, delta) in [("b", 1), ("b", -1), ("c", 1)] {
+            let mut jpk = jv(pa);
+            let x = get_int(at(&jpk, &format!("/{}", fname))) + delta;
+            set(&mut jpk, &format!("/{}", fname), int_json(&x));
+            let pk_e: zkryptium::cl03::keys::CL03PublicKey = from_jv(&jpk);
+            out.check(&format!("spok/{}-U={:?}/signer-key-{}{:+}-after-acceptance", k, u, fname, delta), "proof_verify", vec![format!("pk.{} {:+}", fname, delta)], false, &[], || p.proof_verify(&cpa, &pk_e, &bl, &rev, u, nn));
+        }
         if let Some((pp, pu)) = &prev {
             // the previous proof (other hidden set) still verifies for ITS statement and not for this one
             let prev_rev = pick(&ml, &complement(nn, pu));
@@ -144,6 +152,26 @@ pub fn run(out: &mut Out, thorough: bool) {
         let c2 = Commitment::<CL03<CS>>::commit_with_pk(&msgs(ni, 16), pa, &bi, Some(u));
         out.check(&format!("issue/{}-U={:?}/other-commitment-after-acceptance", k, u), "verify_proof", vec![], false, &[], || zk.verify_proof(c2.cl03Commitment(), None, pa, &bi, None, u));
         out.check(&format!("issue/{}-U={:?}/other-key-after-acceptance", k, u), "verify_proof", vec![], false, &[], || zk.verify_proof(cc, None, pb, &bi, None, u));
+        // the issuer itself, asked again with the SAME key, commitment and proof but another statement: it must not sign
+        let bi2 = Bases::generate(pa, ni);
+        let sign_with = |bases: &Bases, uu: &[usize], ct: Option<&zkryptium::cl03::commitment::CL03Commitment>, tp: Option<&CL03CommitmentPublicKey>| -> bool {
+            let rev = complement(ni, uu);
+            let revm = pick(&mi, &rev);
+            BlindSignature::<CL03<CS>>::blind_sign(pa, sa, bases, &zk, Some(&revm), cc, ct, tp, uu, Some(&rev));
+            true
+        };
+        out.check(&format!("issue/{}-U={:?}/blind_sign-other-bases-after-issuance", k, u), "blind_sign", vec![], false, &[], || sign_with(&bi2, u, None, None));
+        let mut u2 = u.clone();
+        if u2.len() < ni { let extra = (0..ni).find(|x| !u2.contains(x)).unwrap(); u2[0] = extra; u2.sort(); }
+        if u2 != *u {
+            out.check(&format!("issue/{}-U={:?}/blind_sign-other-hidden-set-after-issuance", k, u), "blind_sign", vec![format!("{:?}", u2)], false, &[], || sign_with(&bi, &u2, None, None));
+        }
+        if k == 1 {
+            let tp = CL03CommitmentPublicKey::generate::<CS>(None, Some(ni));
+            let ct_other = Commitment::<CL03<CS>>::commit_with_commitment_pk(&msgs(ni, 17), &tp, Some(u));
+            out.check(&format!("issue/{}-U={:?}/blind_sign-with-unrelated-trusted-commitment-after-issuance", k, u), "blind_sign", vec![], false, &[], || sign_with(&bi, u, Some(ct_other.cl03Commitment()), Some(&tp)));
+        }
+        out.check(&format!("issue/{}-U={:?}/blind_sign-honest-again", k, u), "blind_sign", vec![], true, &[], || sign_with(&bi, u, None, None));
     }
 
     // ---- range proofs: several intervals and commitments in a row, negatives after positives -------------------------
@@ -179,5 +207,96 @@ pub fn run(out: &mut Out, thorough: bool) {
         }
         out.check(&format!("range/{}/verifies-again", k), "verify", vec![], true, &[], || rp.verify::<sha2::Sha256>(g, h, n, a, b));
         prev_rp = Some((rp, a.clone(), b.clone()));
+    }
+
+    // ---- a second ciphersuite in the same process, AFTER all the CL1024 activity above ----------------------------------
+    second_suite::<CL2048Sha256>(out, "CL2048Sha256", include_str!("../fixtures/cl2048_keypair.json"));
+}
+
+/// sign / present / issue with another ciphersuite (key from a fixture made once by the real KeyPair::generate), with the
+/// masking checks of C19 on the presentation: state shared by the suites (a `static` in a generic function is ONE item)
+/// shows here
+fn second_suite<C: CLCiphersuite>(out: &mut Out, name: &str, key_json: &str)
+where
+    <C as zkryptium::schemes::algorithms::Ciphersuite>::HashAlg: digest::Digest,
+{
+    let kp: KeyPair<CL03<C>> = match serde_json::from_str(key_json.trim()) {
+        Ok(k) => k,
+        Err(e) => {
+            out.push(&format!("{}/key-fixture", name), "serde_json", vec![], format!("panic:{}", e), &["expect-accept"]);
+            return;
+        }
+    };
+    let (pk, sk) = (kp.public_key(), kp.private_key());
+    let n = 3usize;
+    let bases = Bases::generate(pk, n);
+    let m: Vec<CL03Message> = (0..n).map(|i| CL03Message::map_message_to_integer_as_hash::<C>(&[i as u8, 21])).collect();
+    let sig = match try_call(|| Signature::<CL03<C>>::sign_multiattr(pk, sk, &bases, &m)) {
+        Ok(s) => s,
+        Err(e) => {
+            out.push(&format!("{}/sign", name), "sign_multiattr", vec![], format!("panic:{}", e), &["expect-accept"]);
+            return;
+        }
+    };
+    out.check(&format!("{}/sig/honest", name), "sign_multiattr;verify_multiattr", vec![], true, &[], || sig.verify_multiattr(pk, &bases, &m));
+    let js = jv(&sig);
+    let (e, sv) = (get_int(at(&js, "/CL03/e")), get_int(at(&js, "/CL03/s")));
+    out.check(&format!("{}/sig/e-length", name), "sign_multiattr", vec![format!("{} bits", e.significant_bits())], true, &[], || e.significant_bits() == <C as CLCiphersuite>::le);
+    out.check(&format!("{}/sig/s-length", name), "sign_multiattr", vec![format!("{} bits", sv.significant_bits())], true, &[], || sv.significant_bits() == <C as CLCiphersuite>::ls);
+    let cpk = CL03CommitmentPublicKey::generate::<C>(Some(pk.N.clone()), Some(n));
+    for u in [vec![0usize, 2], vec![1usize]] {
+        let rev = pick(&m, &complement(n, &u));
+        let p = match try_call(|| PoKSignature::<CL03<C>>::proof_gen(sig.cl03Signature(), &cpk, pk, &bases, &m, &u)) {
+            Ok(p) => p,
+            Err(e) => {
+                out.push(&format!("{}/spok/U={:?}/proof_gen", name, u), "proof_gen", vec![], format!("panic:{}", e), &["expect-accept"]);
+                continue;
+            }
+        };
+        out.check(&format!("{}/spok/U={:?}/honest", name, u), "proof_gen;proof_verify", vec![], true, &[], || p.proof_verify(&cpk, pk, &bases, &rev, &u, n));
+        // C19 on this suite: response / challenge and response / response against e, s and the hidden attributes
+        let j = jv(&p);
+        let ch = get_int(at(&j, "/CL03/spok/challenge"));
+        let g = |f: &str| get_int(at(&j, &format!("/CL03/spok/{}", f)));
+        let mut secrets: Vec<(String, Integer)> = vec![("e".into(), e.clone()), ("s".into(), sv.clone())];
+        for i in &u {
+            secrets.push((format!("m[{}]", i), m[*i].value.clone()));
+        }
+        let mut resp: Vec<(String, Integer)> = ["s_1", "s_2", "s_3", "s_4", "s_6", "s_7", "s_8", "s_9"].iter().map(|f| (f.to_string(), g(f))).collect();
+        for k in 0..u.len() {
+            resp.push((format!("s_5[{}]", k), get_int(at(&j, &format!("/CL03/spok/s_5/{}", k)))));
+        }
+        let mut bad: Vec<String> = vec![];
+        for (an, a) in &resp {
+            for (sn, sx) in &secrets {
+                if !crate::issue::masked(a, &ch, sx) {
+                    bad.push(format!("floor({}/challenge) ~ {}", an, sn));
+                }
+            }
+            for (bn, b) in &resp {
+                if an != bn {
+                    for (sn, sx) in &secrets {
+                        if !crate::issue::masked(a, b, sx) {
+                            bad.push(format!("floor({}/{}) ~ {}", an, bn, sn));
+                        }
+                    }
+                }
+            }
+        }
+        out.push(&format!("{}/spok/U={:?}/responses-mask-their-secrets", name, u), "proof_gen", vec![bad.join("; ")], if bad.is_empty() { "accept".into() } else { "reject".into() }, &["expect-accept", "mask"]);
+    }
+    // issuance with this suite
+    let u = vec![1usize];
+    let c = Commitment::<CL03<C>>::commit_with_pk(&m, pk, &bases, Some(&u));
+    match try_call(|| ZKPoK::<CL03<C>>::generate_proof(&m, c.cl03Commitment(), None, pk, &bases, None, &u)) {
+        Ok(zk) => {
+            out.check(&format!("{}/issue/honest", name), "generate_proof;verify_proof;blind_sign;unblind_sign;verify_multiattr", vec![], true, &[], || {
+                let rev = complement(n, &u);
+                let revm = pick(&m, &rev);
+                zk.verify_proof(c.cl03Commitment(), None, pk, &bases, None, &u)
+                    && BlindSignature::<CL03<C>>::blind_sign(pk, sk, &bases, &zk, Some(&revm), c.cl03Commitment(), None, None, &u, Some(&rev)).unblind_sign(&c).verify_multiattr(pk, &bases, &m)
+            });
+        }
+        Err(e) => out.push(&format!("{}/issue/generate_proof", name), "generate_proof", vec![], format!("panic:{}", e), &["expect-accept"]),
     }
 }
